@@ -454,8 +454,8 @@ Qed.
 Definition Hx_of n cx := entropy log n (hist n (relabel n cx)).
 Definition Hxy_of n cx cy := entropy log n (hist n (relabel n (joint_key n (relabel n cx) (relabel n cy)))).
 
-Lemma partition_distance_unfold n cx cy :
-  partition_distance log n cx cy =
+Lemma pd_general_unfold n cx cy :
+  pd_general log n cx cy =
   ((2 * Hxy_of n cx cy - Hx_of n cx - Hx_of n cy) / log (qof n),
    2 * (Hx_of n cx + Hx_of n cy - Hxy_of n cx cy) / (Hx_of n cx + Hx_of n cy)).
 Proof. reflexivity. Qed.
@@ -466,21 +466,21 @@ Proof.
   intros i j Hi Hj. rewrite (joint_same n cx cy i j Hi Hj), (joint_same n cy cx i j Hi Hj). tauto.
 Qed.
 
-Theorem partition_distance_symmetric n cx cy :
-  fst (partition_distance log n cx cy) == fst (partition_distance log n cy cx) /\
-  snd (partition_distance log n cx cy) == snd (partition_distance log n cy cx).
+Theorem pd_general_symmetric n cx cy :
+  fst (pd_general log n cx cy) == fst (pd_general log n cy cx) /\
+  snd (pd_general log n cx cy) == snd (pd_general log n cy cx).
 Proof.
-  rewrite !partition_distance_unfold. cbn [fst snd]. rewrite (Hxy_sym n cx cy).
+  rewrite !pd_general_unfold. cbn [fst snd]. rewrite (Hxy_sym n cx cy).
   split; [apply Qmult_comp; [ring|reflexivity]|].
   apply Qmult_comp; [ring|]. apply Qinv_comp. ring.
 Qed.
 
 (* depends on the two partitions only *)
-Theorem partition_distance_partition_only n cx cy cx' cy' : same_part n cx cx' -> same_part n cy cy' ->
-  fst (partition_distance log n cx cy) == fst (partition_distance log n cx' cy') /\
-  snd (partition_distance log n cx cy) == snd (partition_distance log n cx' cy').
+Theorem pd_general_partition_only n cx cy cx' cy' : same_part n cx cx' -> same_part n cy cy' ->
+  fst (pd_general log n cx cy) == fst (pd_general log n cx' cy') /\
+  snd (pd_general log n cx cy) == snd (pd_general log n cx' cy').
 Proof.
-  intros Hx Hy. rewrite !partition_distance_unfold. cbn [fst snd].
+  intros Hx Hy. rewrite !pd_general_unfold. cbn [fst snd].
   assert (E1 : Hx_of n cx == Hx_of n cx').
   { apply entropy_same; try apply relabel_canon. apply same_part_relabel; exact Hx. }
   assert (E2 : Hx_of n cy == Hx_of n cy').
@@ -493,11 +493,11 @@ Proof.
 Qed.
 
 (* same partition up to renaming => VIn = 0 and (unless the entropy vanishes: one block) MIn = 1 *)
-Theorem partition_distance_same n cx cy : same_part n cx cy ->
-  fst (partition_distance log n cx cy) == 0 /\
-  (~ Hx_of n cx == 0 -> snd (partition_distance log n cx cy) == 1).
+Theorem pd_general_same n cx cy : same_part n cx cy ->
+  fst (pd_general log n cx cy) == 0 /\
+  (~ Hx_of n cx == 0 -> snd (pd_general log n cx cy) == 1).
 Proof.
-  intros H. rewrite partition_distance_unfold. cbn [fst snd].
+  intros H. rewrite pd_general_unfold. cbn [fst snd].
   assert (E2 : Hx_of n cy == Hx_of n cx).
   { apply entropy_same; try apply relabel_canon. apply same_part_relabel. intros i j Hi Hj. symmetry. apply H; assumption. }
   assert (E3 : Hxy_of n cx cy == Hx_of n cx).
@@ -677,17 +677,17 @@ Proof.
   intros Hn. rewrite <- log_1. apply log_incr; [lra|]. unfold qof. change 1 with (inject_Z 1). rewrite <- Zlt_Qlt. lia.
 Qed.
 
-Theorem VIn_nonneg n cx cy : (1 < n)%nat -> 0 <= fst (partition_distance log n cx cy).
+Theorem pd_general_VIn_nonneg n cx cy : (1 < n)%nat -> 0 <= fst (pd_general log n cx cy).
 Proof.
-  intros Hn. rewrite partition_distance_unfold. cbn [fst].
+  intros Hn. rewrite pd_general_unfold. cbn [fst].
   destruct (Hxy_ge n cx cy) as [H1 H2]; [lia|].
   apply Qle_shift_div_l; [apply log_n_pos; exact Hn|]. lra.
 Qed.
 
 (* VIn = 0 only for the same partition up to renaming *)
-Theorem VIn_zero_same n cx cy : (1 < n)%nat -> fst (partition_distance log n cx cy) == 0 -> same_part n cx cy.
+Theorem pd_general_VIn_zero_same n cx cy : (1 < n)%nat -> fst (pd_general log n cx cy) == 0 -> same_part n cx cy.
 Proof.
-  intros Hn H0. rewrite partition_distance_unfold in H0. cbn [fst] in H0.
+  intros Hn H0. rewrite pd_general_unfold in H0. cbn [fst] in H0.
   pose proof (log_n_pos n Hn) as HL.
   assert (Hnum : 2 * Hxy_of log n cx cy - Hx_of log n cx - Hx_of log n cy == 0).
   { assert (E : 2 * Hxy_of log n cx cy - Hx_of log n cx - Hx_of log n cy ==
@@ -717,11 +717,11 @@ Proof.
 Qed.
 
 (* MIn = 1 forces VIn = 0 (when H(X)+H(Y) is not 0), hence the same partition *)
-Theorem MIn_one_same n cx cy : (1 < n)%nat -> ~ Hx_of log n cx + Hx_of log n cy == 0 ->
-  snd (partition_distance log n cx cy) == 1 -> same_part n cx cy.
+Theorem pd_general_MIn_one_same n cx cy : (1 < n)%nat -> ~ Hx_of log n cx + Hx_of log n cy == 0 ->
+  snd (pd_general log n cx cy) == 1 -> same_part n cx cy.
 Proof.
-  intros Hn Hne H1. apply VIn_zero_same; [exact Hn|].
-  rewrite partition_distance_unfold in *. cbn [fst snd] in *.
+  intros Hn Hne H1. apply pd_general_VIn_zero_same; [exact Hn|].
+  rewrite pd_general_unfold in *. cbn [fst snd] in *.
   assert (E : 2 * (Hx_of log n cx + Hx_of log n cy - Hxy_of log n cx cy) ==
               2 * (Hx_of log n cx + Hx_of log n cy - Hxy_of log n cx cy) / (Hx_of log n cx + Hx_of log n cy)
               * (Hx_of log n cx + Hx_of log n cy)) by (field; exact Hne).
